@@ -48,17 +48,33 @@ def gen_prices(rng, n, style):
     return out
 
 
-def dataset_from(prices, n):
+def dataset_from(prices, n, base=100):
     qs = []
     for i in range(n):
         for s in SYMS:
             pa = prices[s][i]
             if pa is not None:
-                qs.append([f2b(pa[0]), f2b(pa[1]), 100 + i, s])
+                qs.append([f2b(pa[0]), f2b(pa[1]), base + i, s])
     return qs
 
 
+def gen_date_base(rng):
+    """first date of a generated dataset: mostly small positive numbers; sometimes before the epoch, crossing it, or
+    real epoch seconds — dates are i64, nothing says they are positive"""
+    return rng.choice([100, 100, 100, 100, -1000, -2, 0, 1, 1700000000])
+
+
 def gen_costs(rng):
+    if rng.random() < 0.2:
+        # every kind at once, non-zero, in a random order: the cost model threads (budget, price) through the list
+        # in order, so a flat fee before a percentage is not the same as after it
+        cs = [["flat", f2b(rng.choice([5.0, 10.0, 50.0]))], ["pct", f2b(rng.choice([0.01, 0.1, 0.25]))]]
+        if rng.random() < 0.6:
+            cs.append(["ps", f2b(rng.choice([0.01, 0.5, 1.0]))])
+        if rng.random() < 0.3:
+            cs.append(["flat", f2b(1.0)])
+        rng.shuffle(cs)
+        return cs
     n = rng.choice([0, 0, 1, 1, 2, 3])
     cs = []
     for _ in range(n):
@@ -90,7 +106,7 @@ def gen_broker_scenario(rng, lazy=False, style=None, malformed=False, limit_orde
     n = rng.choice([4, 6, 8, 12])
     style = style or rng.choice(["calm", "calm", "jumpy", "const"])
     prices = gen_prices(rng, n, style)
-    ds = dataset_from(prices, n)
+    ds = dataset_from(prices, n, gen_date_base(rng))
     costs = gen_costs(rng)
     ops = []
     first = {s: prices[s][0] for s in SYMS}
@@ -181,7 +197,12 @@ def gen_broker_scenario(rng, lazy=False, style=None, malformed=False, limit_orde
             if malformed and rng.random() < 0.3:
                 shares = rng.choice([-5.0, float("nan"), 0.5])
             price = None if t.startswith("Market") else rng.choice(exch.GRID + [5.0, 10.0, 26.0])
-            ops.append(dict(op="send", order=order(t, sym, shares, price)))
+            o = order(t, sym, shares, price)
+            if rng.random() < 0.12:
+                # an Order object that already carries an id (re-submitted after it came back from a tick, or built
+                # from JSON): the id of a possibly still resting order of this backtest; the exchange assigns its own
+                o["order_id"] = rng.choice([0, 0, 1, 2, 3])
+            ops.append(dict(op="send", order=o))
         elif r < 0.86:
             d = dict(op="diff", weights=gen_weights(rng))
             if rng.random() < 0.4:
@@ -303,7 +324,9 @@ def broker_steps(sc, tr, idx):
             gobs = gc("OGetters", gf(pre["total_value"]), gf(pre["liquidation_value"]), per_sym_term(pre, syms))
         elif o == "trade_costs":
             gop = gc("BTradeCosts", gf(op["qty"]), gf(op["value"]))
-            gobs = None if panic else gc("OCosts", gf(res["costs"]))
+            gobs = None if panic else gc("OCosts", gf(res["costs"]), gf(res["price"]),
+                                         gt(gf(res["impact_buy"][0]), gf(res["impact_buy"][1])),
+                                         gt(gf(res["impact_sell"][0]), gf(res["impact_sell"][1])))
         else:
             raise ValueError(o)
         if gobs is None:
@@ -775,7 +798,7 @@ BPROJ = {
     "C09": (None, B_KIND | B_FAILED | B_EVENT | B_CALLS | B_CASH | B_HOLDINGS | B_STATE),
     "C10": (("liq", "check"), B_KIND | B_EVENT | B_CALLS | B_PENDING | B_STATE),
     "C11": (("getters", "check", "trade_costs"), B_KIND | B_GETTERS | B_QUOTES | B_STATE),
-    "C12": (("diff",), B_KIND | B_ORDERS | B_STATE),
+    "C12": (("diff", "trade_costs"), B_KIND | B_ORDERS | B_GETTERS | B_STATE),
     # C13 as the broker uses the cost model (the configured list must be the one applied)
     "C13": (("diff", "trade_costs"), B_KIND | B_ORDERS | B_GETTERS),
 }
